@@ -1,10 +1,13 @@
 """C09 - Position-independent outputs are correct at any load address.
 
 1. TLC, exhaustive: the linker/loader model of specs/Loader.tla - up to 3 pointer fields at 10
-   candidate offsets of a 1-aligned section starting at an even or odd address, RELR on/off - with
-   the writer's rule (RELR iff the place is even) and with GNU-ld-style bitmap packing satisfies
-   Exactly1, RelrEven, ImageShift at bases 0, 0x10000 and 0x7f12_3456_7000; the variant that chooses
-   RELR by section-offset parity (the layout side of the pinned tree) must be rejected.
+   candidate offsets of a section that is 1-aligned (starting at an even or odd address) or
+   8-aligned, RELR on/off - satisfies Exactly1, RelrEven, ImageShift at bases 0, 0x10000 and
+   0x7f12_3456_7000 and reserves exactly what it writes (MAccounting) with the rule of the tree
+   (elf::relr_eligible: even offset in a section aligned >= 2, same on both sides), with the most
+   permissive correct rule (RELR iff the place is even) and with GNU-ld-style bitmap packing; the
+   old rule (layout by section-offset parity, writer by address parity - the defect fixed by
+   `fix: decide RELR eligibility the same way at layout and at write time`) must be rejected.
 2. Replay/observation: every REPLAY record (chosen offsets, parity of the section start, RELR
    on/off) is realised as a program for PIE, shared and static-PIE, linked by the real wild; the
    observation (AddrPlaces from markers + offsets + the decoded GOT slot, R_X86_64_RELATIVE entries,
@@ -17,6 +20,7 @@
    same key as a C09 known finding only when the input is position independent and GNU ld links it.
 """
 import json
+import os
 import random
 from concurrent.futures import ProcessPoolExecutor
 from pathlib import Path
@@ -30,7 +34,7 @@ META = {
     "ready": True,
     "level": "model_checking",
     "technique": "TLA+ model of relative-relocation emission (RELA/RELR) and of the loader, exhaustively checked by TLC; its enumerated scenarios replayed into the real linker and the observed relocation tables / images validated by TLC against the same operators; native execution under ASLR",
-    "level_text": "Every set of up to 3 pointer fields over 10 offsets (even, odd, adjacent, 63-word window boundary) x section start parity x RELR on/off is explored by TLC for the address-parity rule and for bitmap packing (Exactly1, RelrEven, ImageShift at 3 bases, incl. one above 2^46); the offset-parity variant is shown to fail. Each sampled (quick) or every (thorough) scenario is linked by the real wild as PIE, shared object and static PIE and the observation is judged by TLC; PIE/shared/libc-static-PIE outputs are executed under ASLR.",
+    "level_text": "Every set of up to 3 pointer fields over 10 offsets (even, odd, adjacent, 63-word window boundary) x section alignment class / start parity x RELR on/off is explored by TLC for the rule of the tree (even offset in a section aligned >= 2, on both sides), for the address-parity rule and for bitmap packing (Exactly1, RelrEven, ImageShift at 3 bases incl. one above 2^46, reservation = consumption); the old offset-vs-address parity rule is shown to fail. Each sampled (quick) or every (thorough) scenario is linked by the real wild as PIE, shared object and static PIE and the observation is judged by TLC; PIE/shared/libc-static-PIE outputs are executed under ASLR.",
     "level_note": "AddrPlaces ground truth is limited to generated pointer fields and the decoded GOT slot (programs without libc so that no other address-holding place exists); x86-64 only; libc static-PIE outputs are checked by execution only.",
     "engine": "tlc",
 }
@@ -38,11 +42,13 @@ BASES = [0, 0x10000, 0x7f1234567000]
 
 
 def model(ctx, cov):
-    runs = []
-    recs = None
-    st = tr = 0
-    for cfg in ("mc/Loader_address.cfg", "mc/Loader_packed.cfg"):
-        r = tlc.run_tlc("MCLoader", cfg, workers=8, timeout=600)
+    from concurrent.futures import ThreadPoolExecutor
+    good = ["mc/Loader_code.cfg", "mc/Loader_address.cfg", "mc/Loader_packed.cfg"]
+    with ThreadPoolExecutor(max_workers=4) as ex:
+        res = list(ex.map(lambda c: tlc.run_tlc("MCLoader", c, workers=2, timeout=600, coverage="offset" not in c,
+                                                 name=f"MCLoader.{c.split(chr(47))[-1]}.{os.getpid()}"), good + ["mc/Loader_offset.cfg"]))
+    runs, recs, st, tr = [], None, 0, 0
+    for cfg, r in zip(good, res):
         if not r.ok:
             raise ToolError(f"Loader model check failed ({cfg}): {r.violated} {r.error_text}\n{r.trace_text[:2500]}")
         miss = tlc.zero_coverage_actions(r, ["MLink", "MLoad"])
@@ -51,13 +57,13 @@ def model(ctx, cov):
         runs.append({"cfg": cfg, **r.summary()})
         st += r.distinct
         tr += r.generated
-        if "address" in cfg:
+        if "code" in cfg:
             recs = r.records
-    rb = tlc.run_tlc("MCLoader", "mc/Loader_offset.cfg", workers=8, timeout=600, coverage=False)
+    rb = res[-1]
     if rb.ok or not rb.violated:
-        raise ToolError("the offset-parity variant was NOT rejected by the Loader invariants (vacuous)")
+        raise ToolError("the old offset-parity rule was NOT rejected by the Loader invariants (vacuous)")
     runs.append({"cfg": "mc/Loader_offset.cfg", "expected_violation": rb.violated})
-    if not recs or len(recs) < 400:
+    if not recs or len(recs) < 600:
         raise ToolError(f"only {len(recs or [])} REPLAY records from the Loader model")
     cov["states"], cov["transitions"], cov["tlc_runs"] = st, tr, runs
     return recs
@@ -118,10 +124,13 @@ def run(ctx):
     rng = random.Random(ctx.seed)
     recs = model(ctx, cov)
     build_wild()
+    if any(r["predicted_mismatch"] for r in recs):
+        raise ToolError("the rule of the tree predicts an accounting mismatch: Loader.tla's \"code\" rule is inconsistent")
     if ctx.quick:
-        mism = [r for r in recs if r["predicted_mismatch"]]
-        rest = [r for r in recs if not r["predicted_mismatch"]]
-        pick = rng.sample(mism, min(20, len(mism))) + rng.sample(rest, min(50, len(rest)))
+        # the scenarios where the old defect showed (RELR on, 1-aligned section) are over-represented
+        risky = [r for r in recs if r["relr"] and not r["aligned"]]
+        rest = [r for r in recs if not (r["relr"] and not r["aligned"])]
+        pick = rng.sample(risky, min(36, len(risky))) + rng.sample(rest, min(34, len(rest)))
     else:
         pick = recs
     cases = []
@@ -165,11 +174,13 @@ def run(ctx):
             if w["rc"] != 0:
                 if w["alloc"] and ldok:
                     n_alloc += 1
-                    key = f"{w['alloc']}:relr-parity" if c["relr"] and c["predicted_mismatch"] else f"{w['alloc']}:ptr-{c['out']}"
+                    # RELR enabled and a field whose offset parity and address parity / alignment class differ:
+                    # the signature of the (fixed) relr-parity defect
+                    key = f"{w['alloc']}:relr-parity" if c["relr"] else f"{w['alloc']}:ptr-{c['out']}"
                     ctx.verdict.report(
                         key, f"{res['name']}: position-independent link fails with a size-accounting error "
                              f"({w['err'].strip().splitlines()[-1][:160]}); GNU ld links the same objects; "
-                             f"model: layout reserves {c['alloc_relr']} RELR entries, writer consumes {c['write_relr']}",
+                             f"specification (rule of the tree): layout reserves {c['alloc_relr']} RELR entries and the writer consumes {c['write_relr']}",
                         lambda res=res: save_replay(PROP, res["name"], src_dir=res["dir"], meta={"case": res["case"], "wild": res["wild"]}))
                 elif ldok:
                     log(f"C09 note: wild rejects {res['name']}: {w['err'].strip()[-200:]}")
@@ -196,7 +207,7 @@ def run(ctx):
                 what = "exactly1" if (k in bad and (bad[k].get("missing") or bad[k].get("twice") or bad[k].get("extra"))) else \
                     ("relr-odd" if k in bad and (bad[k].get("odd") or not bad[k].get("wellformed")) else "image-shift")
                 ctx.verdict.report(
-                    f"{what}:{c['out']}:relr{int(c['relr'])}:odd{int(c['secodd'])}",
+                    f"{what}:{c['out']}:relr{int(c['relr'])}:odd{int(c['secodd'])}:al{int(c.get('aligned', False))}",
                     f"{res['name']}: {'; '.join(why)[:600]}",
                     lambda res=res: save_replay(PROP, res["name"], src_dir=res["dir"], meta={"case": res["case"], "wild": res["wild"]}))
             else:
